@@ -21,6 +21,7 @@ class SdkDriver:
         self.futs: Dict[str, Future] = {}
         self.regs: Dict[str, RegFuture] = {}
         self.loops: List[Dict[str, Any]] = []   # frames: {"i": Register|RegFuture, "elt": Future|None}
+        self.flush_block: Any = lambda: True    # decides per flush whether it is issued as flush(block=True|False)
 
     # -- operands ----------------------------------------------------------
     def _idx(self, idx: Any) -> Any:
@@ -145,6 +146,6 @@ class SdkDriver:
             o = self.cvalue(other)
             t.add(o, mod=mod)     # a register future is passed as it is (add() accepts any BaseFuture)
         elif k == "flush":
-            conn.flush()
+            conn.flush(block=bool(self.flush_block()))
         else:
             raise ValueError(f"driver: unknown statement {k}")
